@@ -4,6 +4,7 @@ import (
 	"encoding/json"
 	"fmt"
 	"runtime/debug"
+	"strings"
 
 	"github.com/nyaruka/goflow/assets"
 	"github.com/nyaruka/goflow/assets/static"
@@ -204,6 +205,7 @@ func (r *Runner) ReadResume(data []byte) (res flows.Resume, err error) {
 
 // Resume applies a resume (given as JSON map) to the current session.
 func (r *Runner) Resume(m gen.M) *CallRecord {
+	m = r.resolveSessionContact(m)
 	data, _ := json.Marshal(m)
 	rec := &CallRecord{Index: len(r.Log), Kind: "resume", ResumeJSON: data, ResumeType: fmt.Sprint(m["type"])}
 	res, err := r.ReadResume(data)
@@ -286,4 +288,112 @@ func (r *Runner) Reread(data []byte) (again []byte, err error) {
 		return nil, err
 	}
 	return marshal(s), nil
+}
+
+// resolveSessionContact: a resume whose "contact" is {"__session_contact__": "<op>"} carries the session's CURRENT contact
+// with exactly one attribute changed (the host re-loading the contact after someone edited it elsewhere). The op is
+// applied to the contact JSON as the session holds it right now.
+func (r *Runner) resolveSessionContact(m gen.M) gen.M {
+	cm, ok := m["contact"].(gen.M)
+	if !ok {
+		if mm, ok2 := m["contact"].(map[string]any); ok2 {
+			cm = mm
+		} else {
+			return m
+		}
+	}
+	op, ok := cm["__session_contact__"].(string)
+	if !ok {
+		return m
+	}
+	out := gen.M{}
+	for k, v := range m {
+		out[k] = v
+	}
+	delete(out, "contact")
+	if r.Session == nil || r.Session.Contact() == nil {
+		return out
+	}
+	var c map[string]any
+	json.Unmarshal(marshal(r.Session.Contact()), &c)
+	switch op {
+	case "identical":
+	case "ticket-assignee":
+		if t, ok := c["ticket"].(map[string]any); ok {
+			if a, ok := t["assignee"].(map[string]any); ok && a["email"] == "jim@nyaruka.com" {
+				t["assignee"] = map[string]any{"email": "bob@nyaruka.com", "name": "Bob"}
+			} else {
+				t["assignee"] = map[string]any{"email": "jim@nyaruka.com", "name": "Jim"}
+			}
+		}
+	case "ticket-unassign":
+		if t, ok := c["ticket"].(map[string]any); ok {
+			delete(t, "assignee")
+		}
+	case "ticket-topic":
+		if t, ok := c["ticket"].(map[string]any); ok {
+			if tp, ok := t["topic"].(map[string]any); ok {
+				tp["uuid"], tp["name"] = swapTopic(r.Scen, fmt.Sprint(tp["uuid"]))
+			}
+		}
+	case "ticket-close":
+		delete(c, "ticket")
+	case "name":
+		c["name"] = fmt.Sprint(c["name"]) + "x"
+	case "language":
+		if c["language"] == "spa" {
+			c["language"] = "eng"
+		} else {
+			c["language"] = "spa"
+		}
+	case "last-seen":
+		c["last_seen_on"] = "2018-06-22T09:00:00.5Z"
+	case "urn-display":
+		if us, ok := c["urns"].([]any); ok && len(us) > 0 {
+			u := fmt.Sprint(us[0])
+			if i := strings.Index(u, "#"); i > 0 {
+				u = u[:i]
+			}
+			us[0] = u + "#Newdisplay"
+		}
+	case "urn-reorder":
+		if us, ok := c["urns"].([]any); ok && len(us) > 1 {
+			us[0], us[len(us)-1] = us[len(us)-1], us[0]
+		}
+	case "field-text":
+		f, _ := c["fields"].(map[string]any)
+		if f == nil {
+			f = map[string]any{}
+			c["fields"] = f
+		}
+		f["nick"] = map[string]any{"text": "edited elsewhere"}
+	case "timezone":
+		if c["timezone"] == "Africa/Kigali" {
+			c["timezone"] = "Asia/Kolkata"
+		} else {
+			c["timezone"] = "Africa/Kigali"
+		}
+	case "id":
+		c["id"] = 424242
+	}
+	out["contact"] = c
+	return out
+}
+
+func swapTopic(scen *gen.Scenario, cur string) (string, string) {
+	switch l := scen.Assets["topics"].(type) {
+	case []gen.M:
+		for _, t := range l {
+			if t["uuid"] != cur {
+				return fmt.Sprint(t["uuid"]), fmt.Sprint(t["name"])
+			}
+		}
+	case []any:
+		for _, x := range l {
+			if t, ok := x.(map[string]any); ok && t["uuid"] != cur {
+				return fmt.Sprint(t["uuid"]), fmt.Sprint(t["name"])
+			}
+		}
+	}
+	return cur, "Same"
 }
